@@ -129,6 +129,39 @@ func cacheChild() {
 					time.Sleep(3 * time.Millisecond)
 				}
 				o.Out = "-"
+			case op == "E":
+				// timed scenario: an entry that is still valid when the sweeper runs survives the sweep and is reused before its
+				// expiry.  Self-validating: when the wall clock did not leave the margins, the outcome is "inconclusive".
+				ttl, iv := mjml.VerifCacheConfig()
+				mjml.Render(job.Docs[0], mjml.WithCache())
+				storeAt := time.Now()
+				p0 := parses.Load()
+				s0 := swept.Load()
+				for limit := time.Now().Add(3 * iv); swept.Load() == s0 && time.Now().Before(limit); {
+					time.Sleep(200 * time.Microsecond)
+				}
+				time.Sleep(iv / 2) // the next tick comes in about iv/2
+				remaining := iv * 3 / 4
+				mjml.VerifShiftExpiries(ttl - time.Since(storeAt) - remaining)
+				deadline := time.Now().Add(remaining)
+				s1 := swept.Load()
+				for swept.Load() == s1 && time.Now().Before(deadline) {
+					time.Sleep(200 * time.Microsecond)
+				}
+				switch {
+				case swept.Load() == s1 || time.Now().After(deadline.Add(-iv/8)):
+					o.Out = "inconclusive"
+				default:
+					mjml.Render(job.Docs[0], mjml.WithCache())
+					switch {
+					case time.Now().After(deadline.Add(-iv / 16)):
+						o.Out = "inconclusive"
+					case parses.Load() != p0:
+						o.Out = "early-eviction"
+					default:
+						o.Out = "kept"
+					}
+				}
 			case op == "s":
 				mjml.StopASTCacheCleanup()
 				deadline := time.Now().Add(time.Second)
@@ -561,6 +594,7 @@ func runCacheProp(prop string) runFn {
 		})
 		if prop == "C14" && replay == "" {
 			runCfgSmoke(res)
+			runSweepTiming(res)
 		}
 	}
 }
@@ -584,6 +618,29 @@ func runCfgSmoke(res *Result) {
 			if o.TTL != ttl {
 				res.Violate(Violation{Sig: fmt.Sprintf("setter-semantics|ttl=%d", ttl), Kind: "config", What: fmt.Sprintf("TTL reads %d after SetASTCacheTTLOnce(%d)", o.TTL, ttl), Input: in})
 			}
+		}
+	}
+}
+
+// runSweepTiming: the sweep must not remove an entry that has not expired yet (interval 400 ms, an entry with 300 ms left when
+// the tick is 200 ms away).  Timed against the real ticker; an attempt that ran late reports nothing.
+func runSweepTiming(res *Result) {
+	for attempt := 0; attempt < 3; attempt++ {
+		ops := []string{fmt.Sprintf("I%d", 400*nsMs), fmt.Sprintf("T%d", nsHour), "E"}
+		obs, crash := runCacheChild(cacheJob{Docs: cacheDocs, Ops: ops})
+		res.Case(fmt.Sprintf("sweep-timing|%d", attempt), true)
+		if crash != "" || len(obs) != len(ops) {
+			res.Count("sweep-timing=crash")
+			continue
+		}
+		out := obs[len(obs)-1].Out
+		res.Count("sweep-timing=" + out)
+		if out == "early-eviction" {
+			res.Violate(Violation{Sig: "sweep-removes-unexpired-entry", Kind: "history", What: "a cleanup tick removed an entry 100 ms before its expiry: the template was parsed again although the compilation started before the expiry", Input: map[string]interface{}{"ops": ops}})
+			return
+		}
+		if out == "kept" {
+			return
 		}
 	}
 }
